@@ -119,7 +119,12 @@ def secondaryOne (oddsCur : Nat) (thr : Int) (allExp : List PExp) (mults : List 
       | none => (acc.1, acc.2.1, true)                     -- ErrOddsDataNotFound
       | some m =>
         if availLiq m.2 acc.1 x ≤ thr then
-          ({ acc.1 with notFilled := wrapDec acc.1.notFilled }, acc.2.1.setExp { x with fulfilled := true }, acc.2.2)
+          let b := acc.2.1.setExp { x with fulfilled := true }
+          -- removeFromFulfillmentQueue: the closed exposure no longer waits in its outcome's queue
+          let b := match b.getQueue o with
+            | some q => b.setQueue o (q.filter (fun i => i != acc.1.idx))
+            | none => b
+          ({ acc.1 with notFilled := wrapDec acc.1.notFilled }, b, acc.2.2)
         else acc
 
 /-- stage 1: decide and apply the fulfilment to the in-process item -/
